@@ -3,6 +3,9 @@
 //	argvecho --exit N     prints "H\n" and exits with status N
 //	argvecho --kill SIG   prints "H\n", restores the default disposition of
 //	                      signal number SIG and sends it to itself
+//	argvecho --linger MS --exit N
+//	                      prints "H\n", starts a child that keeps stdout open
+//	                      for MS milliseconds and exits at once with status N
 //	argvecho ...          prints its arguments as a JSON array
 package main
 
@@ -51,6 +54,27 @@ func main() {
 		syscall.Kill(syscall.Getpid(), syscall.Signal(n))
 		time.Sleep(3 * time.Second)
 		os.Exit(99) // the signal did not terminate the process
+	}
+	if len(a) == 2 && a[0] == "--sleep" {
+		ms, _ := strconv.Atoi(a[1])
+		time.Sleep(time.Duration(ms) * time.Millisecond)
+		os.Exit(0)
+	}
+	if len(a) == 4 && a[0] == "--linger" && a[2] == "--exit" {
+		// leave a child behind that keeps our stdout open for a while, then
+		// exit at once with the requested status
+		n, err := strconv.Atoi(a[3])
+		if err != nil {
+			os.Exit(98)
+		}
+		os.Stdout.WriteString("H\n")
+		self, _ := os.Executable()
+		proc, err := os.StartProcess(self, []string{self, "--sleep", a[1]}, &os.ProcAttr{Files: []*os.File{nil, os.Stdout, nil}})
+		if err != nil {
+			os.Exit(97)
+		}
+		proc.Release()
+		os.Exit(n)
 	}
 	b, _ := json.Marshal(a)
 	os.Stdout.Write(append(b, '\n'))
